@@ -90,3 +90,33 @@ def replay(path):
 
 def selftest():
     raise ToolError("selftest not built yet")
+
+
+def dev_driver(name, tier="quick", seed=1):
+    """developer helper: run one driver through the monitor and summarise ALL verdicts"""
+    vlib.build_harness()
+    t0 = time.time()
+    d, stats = vlib.gen_traces(name, tier, seed, "dev_" + name)
+    t1 = time.time()
+    agg = vlib.validate_dir(d, "dev_" + name)
+    t2 = time.time()
+    idx = vlib.load_index(d)
+    kinds = {}
+    ex = {}
+    for v in agg["verdicts"]:
+        k = (v["verdict"], ",".join(v["props"]), v.get("explained", ""), v.get("first", ""))
+        kinds[k] = kinds.get(k, 0) + 1
+        if k not in ex:
+            g = idx[v["g"]]
+            rr = [r for r in g["runs"] if r["r"] == v["r"]][0]
+            ex[k] = (g["tcs"], {a: b for a, b in rr["cfg"].items() if b is not False and b != 1 or b is True}, rr.get("out", rr.get("panic")))
+    print("driver %s: gen %.1fs monitor %.1fs builds %d events %d groups %d states %d" % (
+        name, t1 - t0, t2 - t1, stats["builds"], stats["events"], stats["distinct_groups"], agg["states"]))
+    print("  counters:", json.dumps(agg["counters"]))
+    for k, n in sorted(kinds.items()):
+        print("  %6d %s" % (n, k))
+        if k[2] == "":
+            print("         e.g. %s" % json.dumps(ex[k], ensure_ascii=True)[:400])
+    for n in stats["notes"][:5]:
+        print("  note:", n[:300])
+    return 0
